@@ -105,8 +105,26 @@ pub fn enumerate(base: &BTreeMap<String, Vec<u8>>, full: bool, seed: u64) -> Vec
             }
             cuts.sort();
             cuts.dedup_by_key(|c| c.0);
+            let field_at = |o: usize| -> &'static str {
+                if o < 4 {
+                    return "magic";
+                }
+                for &(off, n) in &frames {
+                    if o >= off && o < off + 4 {
+                        return "len";
+                    }
+                    if o >= off + 4 && o < off + 4 + n {
+                        return "payload";
+                    }
+                    if o >= off + 4 + n && o < off + 8 + n {
+                        return "crc";
+                    }
+                }
+                "tail"
+            };
             for (c, what) in cuts {
                 if c < len {
+                    let what = if what == "any" { if frames.iter().any(|&(off, _)| off == c) { "boundary" } else { field_at(c) } } else { what };
                     out.push(Fault { file: name.clone(), dmg: Dmg::Trunc(c), label: format!("wal.trunc.{what}.{pos}") });
                 }
             }
@@ -142,6 +160,7 @@ pub fn enumerate(base: &BTreeMap<String, Vec<u8>>, full: bool, seed: u64) -> Vec
             flips.dedup_by_key(|f| (f.0, f.1));
             for (off, bit, what) in flips {
                 if off < len {
+                    let what = if what == "any" { field_at(off) } else { what };
                     out.push(Fault { file: name.clone(), dmg: Dmg::Flip(off, bit), label: format!("wal.flip.{what}.{pos}") });
                 }
             }
